@@ -11,12 +11,15 @@ replay = make_replay('C11')
 
 
 def deductive(run):
-    for mod in DEDUCTIVE:
-        run_cases(run, mod)
+    for mod, flt in DEDUCTIVE:
+        run_cases(run, mod, select=(lambda c, flt=flt: flt is None or any(x in c.name for x in flt)))
 
 
 def main(run):
     env.setup()
+    if want(run, 'T'):
+        from contracts import tablelemmas
+        tablelemmas.C11(run)
     if want(run, 'P') or want(run, 'T'):
         deductive(run)
     bounded_part(run, 'C11')
